@@ -47,7 +47,8 @@ STRINGS = ["", "a", "ab", "abc", "é", "éa", "€", "😀", "😀😀", "a😀b
            # numeric / keyword-looking strings (a string is never a number, a bool or null)
            "0", "1", "12", "-1", "+1", "1.0", "1e2", "255", "256", "true", "false", "null", "NaN", "inf",
            " a", "a ", " a ", "\ta", "a\n", "é ", " 1", "1 ",
-           "aaé", "ab€", "abc😀", "jortés", "aé€😀", "\u5b57" * 22, "\u043a\u043b\u044e\u0447\u2192" * 6, "a\u00e9" * 40, "x" * 63 + "\u20ac" + "tail", "x" * 62 + "\U0001f600" + "y" * 70]
+           "aaé", "ab€", "abc😀", "jortés", "aé€😀", "\u5b57" * 22, "\u043a\u043b\u044e\u0447\u2192" * 6, "a\u00e9" * 40, "x" * 63 + "\u20ac" + "tail", "x" * 62 + "\U0001f600" + "y" * 70,
+           "\u20ac" * 100, "a" + "\u20ac" * 100, "ab" + "\u20ac" * 100]
 NONSCALAR = [None, True, False, [], [{"i": "1"}], {"m": []}, {"m": [["a", {"i": "1"}]]}, [None, None]]
 
 
